@@ -50,6 +50,7 @@ Record config := mkConfig {
   snap_reshape : bool;       (* COO.reshape iterates a snapshot of the deque *)
   maxlen : nat;              (* deque(maxlen=...) *)
   csc_via_csr : bool;        (* last stage of tocsc is self.tocsr().tocsc() *)
+  todense_fresh : bool;      (* todense hands the caller a freshly allocated array (never a view of the operand) *)
   memo_clear_bound : option nat   (* None: the dtype memo never removes an entry (what the code does);
                                      Some n: a miss clears the dict when it holds >= n entries (a variant) *)
 }.
@@ -62,6 +63,7 @@ Definition all_snapshot (cfg : config) : bool := snap_transpose cfg && snap_resh
 (* what /repo's source says now *)
 Definition src_config : config :=
   mkConfig transpose_lookup_snapshot reshape_lookup_snapshot cache_maxlen tocsc_final_via_tocsr
+           (todense_result_fresh && densify_paths_via_todense)
            (if memo_no_deletion then None else Some 0%nat).
 
 (* ---------------------------------------------------------------- shared state *)
@@ -103,10 +105,12 @@ Inductive call :=
 | CCache (s : site) (name key : Z)   (* x.transpose(axes) / x.reshape(shape), x cache-enabled; key encodes (x, op, args) *)
 | CAttr (arr : Z) (csc : bool)       (* x.tocsr() / x.tocsc(), x cache-enabled *)
 | CMemo (key : Z)                    (* a _memoize_dtype-wrapped kernel factory applied to a dtype tuple *)
-| CPure (key : Z).                   (* any other read-only operation: no shared mutable state *)
+| CPure (key : Z)                    (* any other read-only operation: no shared mutable state *)
+| CDenseWrite (key : Z).             (* d = x.todense() (or maybe_densify / np.asarray) of a shared operand, followed by
+                                        the CALLER writing into d in place (d -= c): legitimate, d is the caller's *)
 
 Definition ckey (c : call) : Z :=
-  match c with CCache _ _ k => k | CAttr a w => akey a w | CMemo k => k | CPure k => k end.
+  match c with CCache _ _ k => k | CAttr a w => akey a w | CMemo k => k | CPure k => k | CDenseWrite k => k end.
 
 Inductive iter :=
 | ItDirect (id : nat) (st : Z) (counter pos : nat)   (* dequeiter: deque, remembered state, items left, index *)
@@ -134,11 +138,13 @@ Inductive pc :=
 | PmGet (key : Z)
 | PmCompute (key : Z)
 | PmSet (key v : Z)
-| PpCompute (key : Z).
+| PpCompute (key : Z)
+| PdDense (key : Z)                        (* d = x.todense() *)
+| PdWrite (key : Z) (view : bool).         (* d -= c  — d is a view of the operand's storage iff [view] *)
 
 Inductive action :=
 | Next_call | DefaultGet | DefaultStore | IterStart | IterNext | Compare | Compute
-| Append | AttrGet | AttrSet | DictHas | DictGet | DictSet | Enter.
+| Append | AttrGet | AttrSet | DictHas | DictGet | DictSet | Enter | Densify | WriteOwnResult.
 
 Definition action_of (p : pc) : action :=
   match p with
@@ -156,6 +162,8 @@ Definition action_of (p : pc) : action :=
   | PmHas _ => DictHas
   | PmGet _ => DictGet
   | PmSet _ _ => DictSet
+  | PdDense _ => Densify
+  | PdWrite _ _ => WriteOwnResult
   end.
 
 Record thread := mkThread {
@@ -170,6 +178,7 @@ Definition start (c : call) : pc :=
   | CAttr a w => PaGet a w false
   | CMemo k => PmHas k
   | CPure k => PpCompute k
+  | CDenseWrite k => PdDense k
   end.
 
 Definition finished (t : thread) : bool :=
@@ -197,6 +206,9 @@ Section Step.
     mkShared (heap sh) (dd sh) ((k, v) :: attrs sh) (memo sh) (operands sh).
   Definition set_memo (sh : shared) (k v : Z) : shared :=
     mkShared (heap sh) (dd sh) (attrs sh) ((k, v) :: memo sh) (operands sh).
+  (* an in-place write that reaches the operands' storage (only through a result that is a view of it) *)
+  Definition write_operands (sh : shared) (v : Z) : shared :=
+    mkShared (heap sh) (dd sh) (attrs sh) (memo sh) (v :: operands sh).
   Definition clear_memo (sh : shared) : shared :=
     mkShared (heap sh) (dd sh) (attrs sh) [] (operands sh).
   (* the miss path of the memo wrapper before it computes: nothing in the code; `cache.clear()` in the variant *)
@@ -305,6 +317,9 @@ Section Step.
     | PmSet k v => (set_memo sh k v, ret t (CMemo k) (Ok v))
     (* ---- everything else *)
     | PpCompute k => (sh, ret t (CPure k) (Ok (f k)))
+    (* ---- densify, then the caller post-processes ITS result in place *)
+    | PdDense k => (sh, goto t (PdWrite k (negb (todense_fresh cfg))))
+    | PdWrite k view => (if view then write_operands sh (f k) else sh, ret t (CDenseWrite k) (Ok (f k)))
     end.
 
   (* ---------------------------------------------------------------- interleaving *)
@@ -395,4 +410,5 @@ Definition d13_witness : list (list call) * list nat := (d13_threads d13_site, d
 
 (* the protocol as it would be after the candidate fix (iterate a snapshot in both methods) *)
 Definition fixed_config : config :=
-  mkConfig true true (maxlen src_config) (csc_via_csr src_config) (memo_clear_bound src_config).
+  mkConfig true true (maxlen src_config) (csc_via_csr src_config) (todense_fresh src_config)
+           (memo_clear_bound src_config).
